@@ -63,10 +63,13 @@ def solve_lp(
 
     matrix = []
     for i in range(m):
-        row = array("d", A[i])
+        # Row equilibration: the tolerances below are absolute, so bring every constraint to unit scale
+        # (dividing a row by a positive number changes neither the feasible set nor the pivots in exact arithmetic)
+        scale = max((abs(v) for v in A[i]), default=0.0) or 1.0
+        row = array("d", (v / scale for v in A[i]))
         row.extend([0.0] * m)
         row[n + i] = 1.0
-        row.append(b[i])
+        row.append(b[i] / scale)
         matrix.append(row)
 
     obj = array("d", weights)
